@@ -329,6 +329,83 @@ Proof. exact run_order_after_edits_model. Qed.
     property on the trace; it mentions neither [serve] nor the [resolve_*] drivers nor the
     order of the vectors. *)
 
+(** What the specification says, spelled out (these equivalences pin the definitions of Model/RunSpec.v:
+    a weaker definition no longer matches the statement). *)
+Theorem spec_all_once_desc_is : forall (X : Type) (l : list (Z * X)) (ps : list Z),
+  all_once_desc l ps <->
+  (StronglySorted (fun a c => (c < a)%Z) ps /\ forall p, In p ps <-> ref_mem l p = true).
+Proof. intros. apply iff_refl. Qed.
+
+Theorem spec_stage_is : forall (X : Type) (mk : Z -> event) (l : list (Z * X)) (tr : list event),
+  stage_spec mk l tr <-> exists ps, tr = map mk ps /\ all_once_desc l ps.
+Proof. intros. apply iff_refl. Qed.
+
+Theorem spec_prime_is : forall (b : behaviours) (st : bytes * option bytes) (tr : list event) (st' : bytes * option bytes),
+  (prime_chain b st tr st' <->
+   match tr with
+   | [] => st' = st
+   | e :: tr' => exists i pr, e = EPrime i (fst st) /\ ref_get (b_prime b) i = Some pr /\ prime_chain b (prime_apply pr st) tr' st'
+   end) /\
+  (prime_spec b st tr st' <->
+   prime_chain b st tr st' /\ exists ps, map event_prio tr = map Some ps /\ all_once_desc (b_prime b) ps).
+Proof.
+  intros. split; [|apply iff_refl]. split.
+  - intros H. inversion H; subst; [reflexivity|]. eexists. eexists. repeat split; eassumption.
+  - destruct tr as [|e tr']; [intros ->; constructor|]. intros (i & pr & -> & Hg & Hc). econstructor; eassumption.
+Qed.
+
+Theorem spec_prepare_is : forall (b : behaviours) (st : bytes * option bytes) (resp : option presp) (tr : list event),
+  prepare_spec b st resp tr <->
+  match assoc (prepare_key st) (b_single b) with
+  | Some h => resp = Some (h (fst st)) /\ tr = [EPrepareSingle (prepare_key st) (fst st)]
+  | None =>
+      (exists i pred h,
+         ref_get (b_prepare_fn b) i = Some (pred, h) /\ pred (fst st) = true /\
+         (forall j pred' h', ref_get (b_prepare_fn b) j = Some (pred', h') -> pred' (fst st) = true -> (j <= i)%Z) /\
+         resp = Some (h (fst st)) /\ tr = [EPrepareFn i (fst st)])
+      \/ ((forall j pred' h', ref_get (b_prepare_fn b) j = Some (pred', h') -> pred' (fst st) = false) /\
+          resp = None /\ tr = [])
+  end.
+Proof. intros. apply iff_refl. Qed.
+
+Theorem spec_present_is : forall (line : bytes -> option parsed) (b : behaviours) (uri body body' : bytes) (tr : list event),
+  present_spec line b uri body body' tr <->
+  exists ps,
+    StronglySorted (fun a c => (c < a)%Z) ps /\
+    (forall p, In p ps <-> exists pred, ref_get (b_present_fn b) p = Some pred /\ pred uri = true) /\
+    tr = map EPresentFn ps
+         ++ (match path_extension (uri_path uri) with
+             | Some e => if bmem e (b_present_file b) then [EPresentFile e] else []
+             | None => []
+             end)
+         ++ map (fun e => EPresentInternal (fst e) (snd e))
+                (filter (fun e => bmem (fst e) (b_present_internal b))
+                        (match line body with Some p => p_entries p | None => [] end)) /\
+    body' = match line body with Some p => p_body p | None => body end.
+Proof. intros. apply iff_refl. Qed.
+
+Theorem spec_serve_is : forall (line : bytes -> option parsed) (h : hostcfg) (c : cache) (r : creq)
+                               (out : (outcome (N * bytes) * list event) * cache),
+  serve_spec line h c r out <->
+  exists tr1 st pk po,
+    prime_spec (h_b h) (q_uri r, None) tr1 st /\
+    stage_spec EPackage (b_package (h_b h)) pk /\
+    stage_spec EPost (b_post (h_b h)) po /\
+    match cache_hit h c (sanitize r) (q_method r) (key_uri st) with
+    | Some sb => out = ((Ok (client_view (q_method r) (apply_range (sanitize r) sb)), tr1 ++ pk ++ po), c)
+    | None =>
+        exists status body pref tr2 body' tr3,
+          match sanitize r with
+          | SanOk _ => exists resp, prepare_spec (h_b h) st resp tr2 /\ (status, body, pref) = response_of h (q_method r) (fst st) resp
+          | SanUnsafe => (status, body, pref) = (400, [], 1) /\ tr2 = []
+          | SanRange => (status, body, pref) = (416, [], 1) /\ tr2 = []
+          end /\
+          present_spec line (h_b h) (fst st) body body' tr3 /\
+          out = ((Ok (client_view (q_method r) (apply_range (sanitize r) (status, body'))), tr1 ++ tr2 ++ tr3 ++ pk ++ po),
+                 cache_store h c (q_method r) (key_uri st) pref status body')
+    end.
+Proof. intros. apply iff_refl. Qed.
+
 (** The model satisfies it on every host whose vectors are strictly descending, for every cache
     state and every request; [parsed_line] is what [PresentExtensions::new] and its iterators
     return ([present_line_spec]: on a line of the grammar, the names and arguments in order). *)
